@@ -20,9 +20,10 @@ history.
 import TraitsVerif.Lemmas.SyncTwoSided
 import TraitsVerif.Lemmas.SyncHook
 import TraitsVerif.Lemmas.SyncLive
+import TraitsVerif.Lemmas.SyncLink
 namespace TraitsVerif.Props.C20
 open TraitsVerif TraitsVerif.Py TraitsVerif.Model TraitsVerif.Model.Sync TraitsVerif.Model.PyLSync
-  TraitsVerif.Model.SyncLive
+  TraitsVerif.Model.SyncLive TraitsVerif.Model.PyLLink
 variable {α : Type}
 
 /-! ### Termination and the lock -/
@@ -489,14 +490,31 @@ theorem C20_step_is_source [DecidableEq α] (E : Sync.Env α) (d : Nat) (k : KWo
     | some pl => simp only [C20_handlers_are_source]
 
 /-- **`Model.Sync` is the source.** On every state without armed triggers in
-which no table lists a collected object (every state a history of `Model.Sync`
-commands reaches), for every depth budget, the propagation function all
+which no table lists a collected object or lists a partner twice (every state a
+history of `Model.Sync` commands reaches: a dict holds a key once), for every depth budget, the propagation function all
 theorems above are about — `Sync.cascade` — is `cascadeK`, i.e. by
 `C20_step_is_source` the interpretation of the generated programs. -/
 theorem C20_model_is_source [DecidableEq α] (E : Sync.Env α) (d : Nat) (k : KWorld α) (p : Pair) (hq : Quiet k) :
     (∀ v, cascadeK E d k p (.assign v) = lift k (cascade (applyAssign E) d k.w p v)) ∧
     (∀ op, cascadeK E d k p (.mutate op) = lift k (cascade (applyMutate E) d k.w p op)) :=
   ⟨fun v => cascadeK_assign E d k p v hq, fun op => cascadeK_mutate E d k p op hq⟩
+
+/-- **Registration is the source** (add path of `sync_trait`, `mutual=`, the
+reverse call, and `_is_list_trait`).  `harness/translate/synclink.py` turns the
+source text of `HasTraits.sync_trait` and `HasTraits._is_list_trait` into the
+`PyLLink` programs of `Generated/SyncLink.lean`.  For every state, every pair of
+traits and both values of `mutual`, the hand-written transcription `linkS`
+(tables, registration of both handlers, the initial `setattr`, the reverse
+registration skipped when the first half raised) is the interpretation of the
+generated program with `remove=False`; and `_is_list_trait` is the interpretation
+of its generated expression for every trait description.
+(Not yet proved: the same for the `remove=True` path — `unlinkS` is written and
+the program is generated —, and that `linkS`/`unlinkS` agree with
+`World.link`/`World.unlink`, which the driver still runs.) -/
+theorem C20_link_is_source [DecidableEq α] (E : Sync.Env α) (k : KWorld α) (p q : Pair) (both : Bool) :
+    linkS E k p q both = runLink E.isList (recB E) Generated.SyncLink.syncTrait k p q both false ∧
+    (∀ d : TraitDesc, evalIsList d Generated.SyncLink.isListTrait = some (isListTrait d)) :=
+  ⟨linkS_is_source E k p q both, isListTrait_is_source⟩
 
 /-! ### Partner death during a propagation (finding F97, repaired by 8e10b05) -/
 
@@ -645,6 +663,6 @@ example :
 /-- Non-vacuity of `C20_model_is_source`: the state before the trigger is armed is
 `Quiet`, and there the witness's assignment is `Sync.cascade`'s. -/
 example : Quiet (runK idEnv { w := fresh } (dyingPartner.take 2)) :=
-  ⟨rfl, by decide⟩
+  ⟨rfl, by decide, by decide⟩
 
 end TraitsVerif.Props.C20
